@@ -19,6 +19,7 @@ func init() {
 			c.Floor("S.spec", 24)
 			ruleJSONValueSpec(c)
 			ruleFieldTag(c)
+			ruleNoSort(c)
 			ruleWireConsts(c)
 			ruleTagFormat(c)
 			ruleVarintDelegation(c)
